@@ -94,6 +94,19 @@ async fn sweep_episode(p: &EpParams, idx: u64) -> EpReport {
     // hand-out happens at the chosen phase.
     let grid = 100 * MS;
     let target_phase = phase * MS;
+    // every other phase: an earlier delivery was extended far beyond the deadline of the delivery
+    // under test and then acknowledged - whatever timer the subscription armed for it must not
+    // delay the expiry of the (unmodified, unacknowledged) delivery that follows
+    if (idx / 3 / ds.len() as u64) % 2 == 1 {
+        seq.publish(&t, 1).await;
+        let got = seq.pull(&s, 1, true).await;
+        if let Some(d0) = got.first() {
+            let id = d0.ack_id.clone();
+            seq.modify(&s, &[id.clone()], ((d as i64 * 6).clamp(60, 600)) as i32).await;
+            seq.ack(&s, &[id]).await;
+            rep.inc("earlier_delivery_extended_first");
+        }
+    }
     if kind == "stream" {
         seq.open_stream(&s, 0).await;
     }
